@@ -98,7 +98,36 @@ func GenCase(r *vh.Rng, flavor string) Case {
 		c.Ops = append(c.Ops, Op{Op: "subscribe", ID: id, Q: r.Intn(FirstBadSubQuery), Sync: genSync(r)})
 		live[id] = true
 	}
+	fieldQuery := map[string]int{"a": 0, "s": 1, "items": 2, "obj": 3, "flag": 7}
+	stale := -1
+	if r.Chance(15) {
+		stale = r.Intn(n)
+	}
 	for i := 0; i < n; i++ {
+		if i == stale {
+			// witness family of F14 (derived from the model's refutation): an asynchronous close is held
+			// before it takes conn.mu while the client unsubscribes the id and uses it again
+			id := IDPool[r.Intn(len(IDPool))]
+			if r.Bool() {
+				f := Fields[r.Intn(len(Fields))]
+				c.Ops = append(c.Ops, Op{Op: "unsubscribe", ID: id, Sync: "settle"},
+					Op{Op: "fail", Field: f, N: 1, Mode: r.Pick([]string{"plain", "safe", "panic"}), Sync: "none"},
+					Op{Op: "pause", ID: id},
+					Op{Op: "subscribe", ID: id, Q: fieldQuery[f], Sync: "none"})
+			} else {
+				c.Ops = append(c.Ops, Op{Op: "unsubscribe", ID: id, Sync: "settle"},
+					Op{Op: "pause", ID: id},
+					Op{Op: "mutate", ID: id, Q: r.Intn(len(MutQueries)), Sync: "none"})
+			}
+			c.Ops = append(c.Ops, Op{Op: "awaitpause", ID: id}, Op{Op: "unsubscribe", ID: id, Sync: "handled"})
+			if r.Chance(70) {
+				c.Ops = append(c.Ops, Op{Op: "subscribe", ID: id, Q: r.Intn(FirstBadSubQuery), Sync: "handled"})
+				live[id] = true
+			} else {
+				c.Ops = append(c.Ops, Op{Op: "mutate", ID: id, Q: r.Intn(FirstBadMutQuery), Sync: "handled"})
+			}
+			c.Ops = append(c.Ops, Op{Op: "release", ID: id, Sync: "settle"})
+		}
 		k := r.Intn(100)
 		switch {
 		case k < wData: // data change
